@@ -5,8 +5,27 @@ import importlib, time
 from . import common as C
 
 
+def run_corpus(ctx, pid, mod):
+    """inputs on which the implementation failed in the past (kept minimal, committed under corpus/<id>/) run first"""
+    import glob, json, os
+    n = 0
+    for path in sorted(glob.glob(os.path.join(C.VERIF, 'corpus', pid, '*.json'))):
+        try:
+            data = json.load(open(path))
+            v = mod.replay(data['data'])
+        except Exception as ex:
+            ctx.violate('%s:corpus_crash' % pid, 'corpus input %s crashed the oracle: %s: %s' % (os.path.basename(path), type(ex).__name__, ex), dict(corpus=os.path.basename(path)))
+            continue
+        n += 1
+        if v:
+            ctx.violate(v['signature'], 'corpus input %s: %s' % (os.path.basename(path), v['what']), v.get('data', data['data']))
+    ctx.cov['corpus_inputs_replayed'] = n
+
+
 def oracle_sweep(ctx, pid, tier, seed_offset=0, max_seconds=None):
     mod = importlib.import_module('harness.oracles.%s' % pid)
+    if seed_offset == 0 and 'corpus_inputs_replayed' not in ctx.cov:
+        run_corpus(ctx, pid, mod)
     tasks = mod.tasks(ctx.seed + seed_offset, tier)
     t0 = time.time()
     res = C.parallel(mod.run_task, tasks, timeout_each=getattr(mod, 'TASK_TIMEOUT', 120))
@@ -48,16 +67,20 @@ def manifest_level(pid, default):
     return default
 
 
-def run(ctx, pid, level, gen_needed, perrun, trusted, correspondence=None, tables=None, explanation=None, extra_rule=''):
+def run(ctx, pid, level, gen_needed, perrun, trusted, correspondence=None, tables=None, explanation=None, extra_rule='',
+        corr_needs=None, search_extra=None):
+    """corr_needs: per-run modules the correspondence imports (it still runs when other per-run files fail);
+    search_extra: further search for a failing input, run before the thorough oracle sweeps"""
     level = manifest_level(pid, level)
     if level == 'other' and not explanation:
         explanation = 'mechanism theorems (see coverage.theorems) are checked on regenerated definitions; the remaining clauses are validated by the oracle sweep only'
     ok = C.translate(ctx)
     ok = ok and C.compile_gen(ctx, needed=gen_needed)
+    gen_ok = ok
     ok = ok and C.compile_perrun(ctx, perrun)
     C.check_axioms(ctx)
     if correspondence is not None:
-        if ok:
+        if ok or (gen_ok and corr_needs is not None and not (set(corr_needs) & getattr(ctx, 'failed_perrun', set()))):
             try:
                 correspondence(ctx)
             except Exception as ex:
@@ -67,6 +90,14 @@ def run(ctx, pid, level, gen_needed, perrun, trusted, correspondence=None, table
     mod = oracle_sweep(ctx, pid, ctx.tier)
 
     def search(c):
+        if search_extra is not None and gen_ok:
+            before = len(c.violations)
+            try:
+                search_extra(c)
+            except Exception as ex:
+                print('search_extra failed: %s: %s' % (type(ex).__name__, ex))
+            if len(c.violations) > before:
+                return
         for off in (101, 202, 303):
             before = len(c.violations)
             oracle_sweep(c, pid, 'thorough' if c.quick else 'thorough', seed_offset=off)
